@@ -27,7 +27,13 @@ func VerifC10CausalOrder() {
 	sw := verifrt.FifoOpenWriter(sshdPath)
 	aw := verifrt.FifoOpenWriter(auditPath)
 
-	login := "25007 Accepted publickey for someuser from 127.0.0.1 port 51122 ssh2: ED25519 SHA256:Pcs5TWfcOSKb7Rw\n"
+	forms := []string{
+		"25007 Accepted publickey for someuser from 127.0.0.1 port 51122 ssh2: ED25519 SHA256:Pcs5TWfcOSKb7Rw\n",
+		"25007 Accepted publickey for someuser from 127.0.0.1 port 51122 ssh2: ED25519-CERT SHA256:Pcs5TWfcOSKb7Rw and more text\n",
+		"25007 Accepted publickey for someuser from 127.0.0.1 port 51122 ssh2: ED25519-CERT SHA256:Pcs5TWfcOSKb7Rw ID someone@example.com (serial 4) CA ED25519 SHA256:JKH45TJj6tNHO/E/VtWZGunEY7C8VLFjVFv6bDq/5VY\n",
+		"25007 Accepted password for someuser from 127.0.0.1 port 51122 ssh2\n",
+	}
+	login := forms[verifrt.Choose("login-form", verifrt.Param("FORMS", 1))]
 	records := []string{
 		"type=LOGIN msg=audit(1668460768.200:30166): pid=25007 uid=0 old-auid=4294967295 auid=1000 tty=(none) old-ses=4294967295 ses=499 res=1\n",
 		"type=USER_START msg=audit(1668460768.300:30167): pid=25007 uid=0 auid=1000 ses=499 msg='op=PAM:session_open acct=\"someuser\" exe=\"/usr/sbin/sshd\" hostname=127.0.0.1 addr=127.0.0.1 terminal=ssh res=success'\n",
